@@ -84,8 +84,14 @@ def make(cfg_in):
 
         def detail(prop, clause, msg):
             def mk(mdl):
-                return {'prop': prop, 'clause': clause, 'msg': msg, 'harness': 'h_ed',
-                        'scenario': concretize(s, mdl)}
+                d = {'prop': prop, 'clause': clause, 'msg': msg, 'harness': 'h_ed',
+                     'scenario': concretize(s, mdl)}
+                if cfg.get('filter') == 'SuffixFilter' and cfg['entry'] == 'filter_pair' and clause == 'safe':
+                    try:
+                        d['subclass'] = _suffix_pair_subclass_ed(d['scenario'])
+                    except Exception:
+                        pass
+                return d
             return mk
 
         b = dict(h_join.bindings())
@@ -398,3 +404,26 @@ def make_rel(cfg_in):
         return {'nontrivial': len(A) > 0, 'tags': [], 'sample': None}
 
     return h
+
+
+def _suffix_pair_subclass_ed(sc):
+    """Classify a SuffixFilter(EDIT_DISTANCE).filter_pair miss on the concrete witness, with the real
+    tokenizer, the real pair-level token ordering and the real prefix lengths: is there a shared q-gram
+    lying in the prefix of one record and in the suffix of the other?  (Same predicate as
+    h_pair._suffix_pair_subclass - the recorded known finding.)"""
+    fu = repo.mod('filter.filter_utils')
+    to = repo.mod('utils.token_ordering')
+    tok = QgramTokenizer(qval=sc['q'], padding=sc['padding'], return_set=sc['return_set'])
+    ai = sc['L']['columns'].index('attr')
+    lt = tok.tokenize(sc['L']['rows'][0][ai])
+    rt = tok.tokenize(sc['R']['rows'][0][sc['R']['columns'].index('attr')])
+    order = to.gen_token_ordering_for_lists([lt, rt])
+    lo = to.order_using_token_ordering(lt, order)
+    ro = to.order_using_token_ordering(rt, order)
+    pl_l = fu.get_prefix_length(len(lt), 'EDIT_DISTANCE', sc['threshold'], tok)
+    pl_r = fu.get_prefix_length(len(rt), 'EDIT_DISTANCE', sc['threshold'], tok)
+    for i, a in enumerate(lo):
+        for j, b_ in enumerate(ro):
+            if a == b_ and ((i < pl_l) != (j < pl_r)):
+                return 'shared-token-in-prefix-of-one-suffix-of-other'
+    return 'other'
